@@ -4,6 +4,7 @@ import IrVerif.Model.Sort
 
 Requests: `{"m": "sort.sort", "graph": G}`, `{"m": "sort.universe", "graph": G}` with
 `G = {"g": gid, "n": [N...]}` and `N = {"i": id, "in": [producer id | null ...], "s": [G...]}`;
+`{"m": "sort.hyp", "graph": G}` (the hypotheses `WellScoped` / `OrderedG` of the fixpoint theorems);
 `{"m": "sort.relink", "cur": [...], "xs": [...]}`. -/
 open Lean IrVerif.Drive
 namespace IrVerif.Drive.Sort
@@ -41,6 +42,11 @@ def handle : Handler := fun m j =>
       let g ← parseGraph (← j.getObjVal? "graph")
       return obj [("r", Json.arr ((nodesOf g).map (fun e =>
         Json.arr #[toJson e.id, toJson e.gid])).toArray)]
+  | "sort.hyp" => some do
+      let g ← parseGraph (← j.getObjVal? "graph")
+      return obj [("ws", toJson (decide (WellScoped g))),
+        ("ordered", Json.arr ((allGraphs g).map (fun h =>
+          Json.arr #[toJson h.1, toJson (decide (OrderedG h))])).toArray)]
   | "sort.relink" => some do
       return obj [("r", natsJ (relink (← getNats j "cur") (← getNats j "xs")))]
   | _ => none
